@@ -79,11 +79,14 @@ def get_dhw_zone_contract(self, *, msg=None, **schema):
 
 STUBS = {SH.MultiZone.get_htg_zone: get_htg_zone_contract, SH.StoredHw.get_dhw_zone: get_dhw_zone_contract}
 
-CHILD_IDS = [None, "00", "01", "02", "0B", "0F", "F9", "FA", "FC", "FF", "HW"]
+CHILD_IDS = [None, "00", "01", "0F", "F9", "FA", "FC", "FF"]
 
 
 def pick_parent(name, world):
     return world[sym_choice(name, sorted(world))]
+
+
+ROLE_SLOTS = ("_sensor", "_dhw_sensor", "_dhw_valve", "_htg_valve", "_app_cntrl")
 
 
 def slots(world):
@@ -91,7 +94,7 @@ def slots(world):
     out = []
     for k in sorted(world):
         p = world[k]
-        for a in ("_sensor", "_dhw_sensor", "_dhw_valve", "_htg_valve", "_app_cntrl"):
+        for a in ROLE_SLOTS:
             if hasattr(p, a):
                 out.append((k, a, getattr(p, a)))
         if hasattr(p, "actuators"):
@@ -119,7 +122,7 @@ def the_world(max_zones):
     ufc = new_object(DH.UfhController, _gwy=FakeGwy(), id="02:000001", type="02", _parent=None, _child_id=None, _is_sensor=None,
                      ctl=None, tcs=None, circuit_by_id={}, childs=[], child_by_id={})
     return {"ctl_a": ctl_a, "tcs_a": tcs_a, "zone_a0": tcs_a.zone_by_idx["00"], "zone_a1": tcs_a.zone_by_idx["01"], "dhw_a": tcs_a._dhw,
-            "ctl_b": ctl_b, "tcs_b": tcs_b, "zone_b0": tcs_b.zone_by_idx["00"], "dhw_b": tcs_b._dhw, "ufc": ufc}
+            "ctl_b": ctl_b, "zone_b0": tcs_b.zone_by_idx["00"], "ufc": ufc}
 
 
 def new_child(kind, dev_id):
@@ -130,14 +133,32 @@ def new_child(kind, dev_id):
 
 DEV_ID = {"trv": "04:000001", "thm": "34:000001", "bdr": "13:000001", "dhw_sensor": "07:000001", "otb": "10:000001",
           "ufc": "02:000002", "out": "17:000001"}
-OTHER_ID = {"trv": "04:000002", "thm": "34:000002", "bdr": "13:000002", "dhw_sensor": "07:000002", "otb": "10:000002",
-            "ufc": "02:000003", "out": "17:000002"}
+
+# a role already held by ANOTHER device when the device under test comes along: (parent, slot, the holder's class, its child id)
+TAKEN = {"nothing": None,
+         "zone_sensor": ("zone_a0", "_sensor", DH.Thermostat, "00"), "dhw_sensor": ("dhw_a", "_dhw_sensor", DH.DhwSensor, "FA"),
+         "dhw_valve": ("dhw_a", "_dhw_valve", DH.BdrSwitch, "FA"), "htg_valve": ("dhw_a", "_htg_valve", DH.BdrSwitch, "F9"),
+         "app_cntrl": ("tcs_a", "_app_cntrl", DH.BdrSwitch, "FC")}
+RELEVANT = {"trv": "zone_sensor", "thm": "zone_sensor", "bdr": "dhw_valve", "dhw_sensor": "dhw_sensor", "otb": "app_cntrl",
+            "ufc": "app_cntrl", "out": "zone_sensor"}
+
+
+def take_role(world, taken):
+    if TAKEN[taken] is None:
+        return
+    pk, slot, cls, cid = TAKEN[taken]
+    p = world[pk]
+    holder = new_object(cls, _gwy=FakeGwy(), id="99:000009", type="99", _parent=p, _child_id=cid, _is_sensor=slot.endswith("sensor"),
+                        ctl=p.ctl, tcs=p.tcs)
+    setattr(p, slot, holder)
+    p.childs.append(holder)
+    p.child_by_id[holder.id] = holder
 
 
 def one_step(child, world, tag):
     parent = pick_parent(f"parent_{tag}", world)
     child_id = sym_choice(f"child_id_{tag}", CHILD_IDS)
-    is_sensor = sym_choice(f"is_sensor_{tag}", [None, False, True])
+    is_sensor = sym_bool(f"is_sensor_{tag}")
     before = (child._parent, child.ctl, child.tcs, child._child_id, slots(world))
     o = outcome(child.set_parent, parent, child_id=child_id, is_sensor=is_sensor)
     return o, before, is_sensor
@@ -161,7 +182,7 @@ def check_step(child, world, o, before, is_sensor, n):
     check(any(c is child for c in p.childs) and p.child_by_id.get(child.id) is child, "and the parent lists the device among its children")
     now = {(k, a): v for k, a, v in slots(world)}
     for k, a, v in old_slots:
-        if a in ("_sensor", "_dhw_sensor", "_dhw_valve", "_htg_valve", "_app_cntrl"):
+        if a in ROLE_SLOTS:
             check(v is None or now[(k, a)] is v, "a role that is taken (zone sensor, DHW sensor, DHW/heating valve, appliance control) is never given to another device without the inconsistency being reported")
             check(now[(k, a)] is v or (now[(k, a)] is child and world[k] is p), "and only the parent addressed, and only for the device itself, gets a role filled")
         elif a == "actuators":
@@ -183,41 +204,26 @@ def check_step(child, world, o, before, is_sensor, n):
         check(child._child_id in ("FC", "FF"), "a direct child of the system is the appliance control (FC) or a system-level device (FF)")
 
 
-@harness("C15", cases=[(k,) for k in sorted(CHILD_CLASSES)], budget_s=600, stubs=STUBS)
-def association_step_is_consistent(kind):
-    """Child.set_parent (with _get_parent and Parent._add_child) on a device of each class, twice in a row
-    with ANY parent (either of two controllers, their systems, zones, DHW zones, a UFH controller), any
-    child id and any sensor flag, where the role asked for may already be taken by ANOTHER device:
-    each step either raises and changes nothing, or returns and the topology obeys the rules above."""
-    max_zones = sym_int("max_zones", 1, 16)
-    world = the_world(max_zones)
+@harness("C15", cases=[(k, t) for k in sorted(CHILD_CLASSES) for t in sorted(TAKEN)], quick=lambda k, t: t in ("nothing", RELEVANT[k]),
+         budget_s=900, stubs=STUBS)
+def association_step_is_consistent(kind, taken):
+    """Child.set_parent (with _get_parent and Parent._add_child) on a device of each class, twice in a row with
+    ANY parent (either of two controllers, a system, zones, the DHW zone, a UFH controller), any child id and
+    either sensor flag, while one role may already be held by ANOTHER device: each step either raises and
+    changes nothing, or returns and the topology obeys the rules above; two accepted steps name one parent."""
+    world = the_world(sym_int("max_zones", 1, 16))
+    take_role(world, taken)
     child = new_child(kind, DEV_ID[kind])
-    if sym_bool("another_device_was_there_first"):
-        other = new_child(kind, OTHER_ID[kind])
-        o0, _, _ = one_step(other, world, "other")
-        assume(o0.ok)
-        cover("another device of the class holds a role")
     o1, before1, s1 = one_step(child, world, "1")
     check_step(child, world, o1, before1, s1, 1)
+    if not o1.ok:
+        return  # a refused step changed nothing (just checked): the device is as new, which step 1 covers
+    role = child._child_id
     o2, before2, s2 = one_step(child, world, "2")
     check_step(child, world, o2, before2, s2, 2)
-    if o1.ok and o2.ok:
+    if o2.ok:
         cover("the same device was accepted twice")
         check(o2.value is o1.value, "two accepted associations of one device name the same parent")
-
-
-@harness("C15", cases=[(k,) for k in ("trv", "bdr", "dhw_sensor")], budget_s=600, stubs=STUBS)
-def one_device_one_role(kind):
-    """After a device was accepted in a role, a second accepted association keeps it in that ONE role
-    (same parent AND same child id): a relay that is the DHW valve is not silently made the heating
-    valve as well."""
-    world = the_world(sym_int("max_zones", 1, 16))
-    child = new_child(kind, DEV_ID[kind])
-    o1, _, _ = one_step(child, world, "1")
-    assume(o1.ok)
-    role = child._child_id
-    o2, _, _ = one_step(child, world, "2")
-    if o2.ok:
         check(child._child_id == role, "a device that has a role is never given a second one without the inconsistency being reported")
 
 
@@ -254,3 +260,12 @@ def zone_index_is_within_the_maximum():
         cover("a zone was refused")
         check(Or(int(idx, 16) >= max_zones, taken), "a zone is refused only for an index at or above the maximum, or a duplicate")
         check(isinstance(o.exc, (LookupError, ValueError)), "and the refusal is a LookupError / ValueError")
+
+
+def kf_two_dhw_valve_roles(inp):
+    """Known-finding class: a relay that is one of the DHW zone's two valves (F9 heating valve / FA hot-water
+    valve) is associated again as the OTHER one: same parent, so nothing is reported, and it then holds both."""
+    a, b = inp.get("child_id_1"), inp.get("child_id_2")
+    if a is None or b is None:
+        return False
+    return Or(And(a == "F9", b == "FA"), And(a == "FA", b == "F9"))
